@@ -25,6 +25,6 @@ Bad == (IF [d \in 1..Len(defs) |-> defs[d].at] # O.defs_at THEN {"definitions ke
        \cup (IF [d \in 1..Len(defs) |-> Cardinality(RefsTo(defs[d].l))] # O.backrefs THEN {"backrefs"} ELSE {})
        \cup (IF dupw # SetOf(O.dupw) \/ Len(O.dupw) # Cardinality(dupw) THEN {"duplicate-definition warnings"} ELSE {})
        \cup (IF unrefw # SetOf(O.unrefw) \/ Len(O.unrefw) # Cardinality(unrefw) THEN {"unreferenced warnings"} ELSE {})
-       \cup (IF final # O.final THEN {"document order / transition"} ELSE {})
-Verdict == Done => PrintT(ToJson([id |-> T.id, bad |-> Bad, num |-> num, final |-> final, refview |-> RefView]))
+       \cup (IF Visible(final) # O.final THEN {"document order / transition"} ELSE {})
+Verdict == Done => PrintT(ToJson([id |-> T.id, bad |-> Bad, num |-> num, final |-> Visible(final), refview |-> RefView]))
 =============================================================================
